@@ -12,15 +12,53 @@
 (*                                                                         *)
 (* Level A: the statement (FlushA).  Level B: the recursion of the code    *)
 (* (FlushB: `And` halves the timeout, flushes left then right, returns     *)
-(* lhs && rhs).  One behaviour = pick a tree and the leaves' answers,      *)
-(* flush, observe.                                                         *)
+(* lhs && rhs).  One behaviour = pick a tree, the leaves' answers and the  *)
+(* way the request reaches the tree (entry), flush, observe.               *)
+(*                                                                         *)
+(* Entries (how a flush request reaches the destination tree):             *)
+(*   direct, erased          the tree itself / type-erased once more       *)
+(*   runtime                 Runtime::build(tree, ..) as Emitter           *)
+(*   default_rt              Runtime::default().with_emitter(tree)         *)
+(*   init_runtime            Setup::emit_to(tree).init_runtime()           *)
+(*   map_emitter             Setup::map_emitter(|_| tree).init_runtime()   *)
+(*   and_emit_to             Setup::and_emit_to(tree).init_runtime(): the  *)
+(*                           tree is the right half of And<default, tree>  *)
+(*   -- a slot of one's own, initialised by Setup::emit_to(tree):          *)
+(*   init_flush              Init::blocking_flush                          *)
+(*   init_get                Init::get() as Emitter                        *)
+(*   slot_get                AmbientSlot::get() as Emitter                 *)
+(*   guard_drop              Init::flush_on_drop(t), InitGuard::inner,     *)
+(*                           drop of the guard (no result to look at)      *)
+(*   guard_unwind            the same, the guard dropped by a panic        *)
+(*                           unwinding through its scope                   *)
+(*   uninit                  the slot was never initialised (inert)        *)
+(*   lost                    the slot was taken before: try_init_slot      *)
+(*                           reports failure, no guard comes to exist, the *)
+(*                           tree is not part of the runtime               *)
+(*   -- the process-global shared slot (one process per case):             *)
+(*   shared                  Setup::init(), then emit::blocking_flush      *)
+(*   shared_guard            Setup::init().flush_on_drop(t) dropped by a   *)
+(*                           panic unwinding through it                    *)
+(*   shared_uninit           emit::blocking_flush, nothing initialised     *)
 (***************************************************************************)
 EXTENDS Naturals, Sequences, FiniteSets, TLC, Json
 
 CONSTANTS LeafIds,   \* e.g. {1, 2, 3}
           Depth,     \* nesting bound
           Timeout,   \* caller's timeout in ms (a power of two)
+          Entries,   \* subset of AllEntries
+          DeepEntries,   \* the entries explored with trees up to Depth, ...
+          ShallowDepth,  \* ... the others with trees up to this depth
           Emit
+
+AllEntries == {"direct", "erased", "runtime", "default_rt", "init_runtime", "map_emitter",
+               "and_emit_to", "init_flush", "init_get", "slot_get", "guard_drop", "guard_unwind",
+               "uninit", "lost", "shared", "shared_guard", "shared_uninit"}
+ASSUME Entries \subseteq AllEntries /\ DeepEntries \subseteq Entries /\ ShallowDepth <= Depth
+\* the tree never became part of the runtime the request goes to
+NotInstalled == {"uninit", "lost", "shared_uninit"}
+\* the flush happens in a destructor: there is no result to look at
+NoResult == {"guard_drop", "guard_unwind", "shared_guard"}
 
 Wrappers == {"some", "ref", "box", "arc", "erased", "wrap"}
 
@@ -43,11 +81,12 @@ LeavesOf(t) ==
 \* each leaf id at most once, so calls can be attributed
 Distinct(t) == LET ls == LeavesOf(t) IN \A i, j \in 1..Len(ls) : i # j => ls[i] # ls[j]
 
-VARIABLES tree, answer, phase, result, calls
-vars == <<tree, answer, phase, result, calls>>
+VARIABLES tree, answer, entry, phase, result, calls
+vars == <<tree, answer, entry, phase, result, calls>>
 
-(* Level A *)
-FlushA(t, ans) == \A i \in 1..Len(LeavesOf(t)) : ans[LeavesOf(t)[i]]
+(* Level A: the destinations a request through entry e reaches, and the answer it is due *)
+Reached(e, t) == IF e \in NotInstalled THEN <<>> ELSE LeavesOf(t)
+FlushA(e, t, ans) == \A i \in 1..Len(Reached(e, t)) : ans[Reached(e, t)[i]]
 
 (* Level B: <<result, calls>>, calls = sequence of [leaf, timeout] *)
 RECURSIVE FlushB(_, _, _)
@@ -61,16 +100,28 @@ FlushB(t, ans, timeout) ==
         IN <<l[1] /\ r[1], l[2] \o r[2]>>
     ELSE FlushB(t.t, ans, timeout)
 
+\* level B: the destination the request actually meets.  An empty slot answers with the
+\* constant empty runtime and the loser's tree is dropped unused (nothing to flush);
+\* and_emit_to puts the tree next to the default (empty) emitter under an And.
+Met(e, t) ==
+    IF e \in NotInstalled THEN NoneT
+    ELSE IF e = "and_emit_to" THEN [k |-> "and", l |-> NoneT, r |-> t]
+    ELSE t
+
+LeafSet(t) == {LeavesOf(t)[i] : i \in 1..Len(LeavesOf(t))}
+
 Init ==
-    /\ tree \in {t \in Trees(Depth) : Distinct(t)}
-    /\ answer \in [LeafIds -> BOOLEAN]
+    /\ entry \in Entries
+    /\ tree \in {t \in Trees(IF entry \in DeepEntries THEN Depth ELSE ShallowDepth) : Distinct(t)}
+    \* the answer of a destination that is not in the tree is immaterial: fixed
+    /\ answer \in {a \in [LeafIds -> BOOLEAN] : \A i \in LeafIds \ LeafSet(tree) : a[i]}
     /\ phase = "ready" /\ result = FALSE /\ calls = <<>>
 
 DoFlush ==
     /\ phase = "ready"
-    /\ LET r == FlushB(tree, answer, Timeout) IN result' = r[1] /\ calls' = r[2]
+    /\ LET r == FlushB(Met(entry, tree), answer, Timeout) IN result' = r[1] /\ calls' = r[2]
     /\ phase' = "done"
-    /\ UNCHANGED <<tree, answer>>
+    /\ UNCHANGED <<tree, answer, entry>>
 
 Next == DoFlush
 Spec == Init /\ [][Next]_vars
@@ -78,14 +129,15 @@ Spec == Init /\ [][Next]_vars
 RECURSIVE SumT(_)
 SumT(cs) == IF cs = <<>> THEN 0 ELSE Head(cs).timeout + SumT(Tail(cs))
 
-FlushIsConjunction == phase = "done" => result = FlushA(tree, answer)
+FlushIsConjunction == phase = "done" => result = FlushA(entry, tree, answer)
 EveryLeafOnceInOrder ==
-    phase = "done" => [i \in 1..Len(calls) |-> calls[i].leaf] = LeavesOf(tree)
+    phase = "done" => [i \in 1..Len(calls) |-> calls[i].leaf] = Reached(entry, tree)
 BudgetRespected == phase = "done" => SumT(calls) <= Timeout
 \* a leaf is never handed a zero budget while the caller gave time (depth bound keeps 2^d <= Timeout)
 LeafGetsTime == phase = "done" => \A i \in 1..Len(calls) : calls[i].timeout > 0
 
 EmitReplay ==
     Emit => PrintT(<<"REPLAY", ToJson([tree |-> tree', answer |-> answer', timeout |-> Timeout,
+                                       entry |-> entry', seen |-> entry' \notin NoResult,
                                        result |-> result', calls |-> calls'])>>)
 =============================================================================
